@@ -130,6 +130,7 @@ func runC11(c *gen.Ctx) error {
 				mk := func(f func(s *cc.VerifC11Spec)) cc.VerifC11Spec {
 					s := c11Base(n)
 					s.IsRef, s.UseTLS = isRef, tls
+					s.Creds = c.R.Bool()
 					if isRef {
 						s.Stderr = c11Stderr(c, s.Names, c.R.Range(0, 4), false)
 						s.Chunk = c.R.Intn(6)
@@ -146,6 +147,11 @@ func runC11(c *gen.Ctx) error {
 						continue
 					}
 					add("resp-"+r, mk(func(s *cc.VerifC11Spec) { s.Resp = r }))
+					if r == "zero" || r == "ok" || r == "okcert" {
+						// what the server's answer says about its certificate, with the runner holding / not holding credentials
+						add("resp-"+r, mk(func(s *cc.VerifC11Spec) { s.Resp = r; s.Creds = true }))
+						add("resp-"+r, mk(func(s *cc.VerifC11Spec) { s.Resp = r; s.Creds = false }))
+					}
 				}
 				if n <= 2 || c.Thorough() {
 					for k := 0; k <= respLen; k++ {
@@ -254,6 +260,7 @@ func runC11(c *gen.Ctx) error {
 		n := c.R.Range(1, maxN)
 		s := c11Base(n)
 		s.IsRef, s.UseTLS = c.R.Bool(), c.R.Chance(1, 3)
+		s.Creds = c.R.Bool()
 		if c.R.Chance(1, 12) {
 			s.Start = "err"
 		}
